@@ -3,7 +3,8 @@
 History invariant on engine-A runs: generated projects with several variants
 per recipe go through edit histories interleaved with `bob dev`, `bob build`,
 `bob clean [--release|--develop] [-s] [--dry-run]` (all under the simulated
-loop).  After every operation a query child computes the map
+loop); some invocations are killed inside the sqlite transaction that refreshes the
+develop directory map (the map must survive: rule (b) spans the killed invocation).  After every operation a query child computes the map
 (kind, recipe, Variant-Id) -> directory; the seam records what every step script
 finds in its workspace when it starts.
 
@@ -31,7 +32,7 @@ RULE = ("case = generated project rich in per-path variants (dependency environm
         "directory maps along the history")
 COMPONENTS = {"real": ["bob dev/build/clean CLI", "cmds/build/state.DevelopDirOracle", "state.getByNameDirectory", "builder prune logic",
                        "cmds/build/clean.collectPaths/doClean"],
-              "stub": ["event loop (SimLoop)"], "not_exercised": ["external developNamePersister plugins", "attic cleaning", "git sources (C12)"]}
+              "stub": ["event loop (SimLoop)", "process kill = os._exit at the k-th mutating sqlite statement of .bob-dev-dirs.sqlite3"], "not_exercised": ["external developNamePersister plugins", "attic cleaning", "git sources (C12)"]}
 ASSUMPTIONS = ["'content belongs to a package' = the last step script executed in that workspace ran for the package's current Variant-Id"]
 SHRINK = ["ops"]
 
@@ -64,7 +65,13 @@ def gen_case(rng, tier, index):
                 # cleaning between the edit and the rebuild: parents whose new variant has no
                 # directory yet stand above results that are still up to date
                 ops.append(["clean", rng.choice(["develop", "release", "release"]), rng.random() < 0.2, False])
-            ops.append([rng.choice(["dev", "dev", "build"]), rng.choice([1, 2, 4]), rng.getrandbits(32)])
+            if rng.random() < 0.35:
+                # the first invocation after the edit is killed inside the refresh of the develop
+                # directory map (at its k-th mutating sqlite statement); the user removes the lock and retries
+                ops.append(["killdev", rng.randint(1, 8), rng.choice(["before", "after"])])
+                ops.append(["dev", 1, rng.getrandbits(32)])
+            else:
+                ops.append([rng.choice(["dev", "dev", "build"]), rng.choice([1, 2, 4]), rng.getrandbits(32)])
         elif r < 0.65:
             ops.append([rng.choice(["dev", "build"]), rng.choice([1, 2]), rng.getrandbits(32)])
         else:
@@ -117,6 +124,22 @@ def directed_cases(tier):
                ["clean", cm, False, True],
                ["edit", {"kind": "revert", "to": 0}], [mode, 1, 2]]
         out.append({"model": model2, "ops": ops, "directed": "dry run while a variant is gone, then revert"})
+    # lib[a] -> 1, lib[b] -> 2; the consumer of lib[a] goes away; lib[c] arrives and the invocation that
+    # has to renumber dies inside the refresh; lib[b] must still be found in directory 2 afterwards
+    lib = leaf(); lib["buildVars"] = ["VA"]; lib["packageVars"] = ["VA"]
+    ma = leaf(); ma["depends"] = [{"name": "lib", "use": ["result", "deps"], "environment": {"VA": "a"}}]
+    mb = leaf(); mb["depends"] = [{"name": "lib", "use": ["result", "deps"], "environment": {"VA": "b"}}]
+    mc = leaf(); mc["depends"] = [{"name": "lib", "use": ["result", "deps"], "environment": {"VA": "c"}}]
+    root = leaf(); root["depends"] = [{"name": "ma", "use": ["result", "deps"]}, {"name": "mb", "use": ["result", "deps"]}]
+    model3 = {"recipes": {"root": root, "ma": ma, "mb": mb, "mc": mc, "lib": lib}, "classes": {}, "default_env": {}, "sources": {},
+              "order": ["root", "ma", "mb", "mc", "lib"], "features": ["directed-kill-inside-map-refresh"]}
+    for nth in range(1, 9):
+        for when in (("after",) if nth % 2 else ("before", "after")):
+            ops = [["dev", 1, 1],
+                   ["edit", {"kind": "dep_remove", "recipe": "root", "index": 0}], ["dev", 1, 2],
+                   ["edit", {"kind": "dep_add", "recipe": "root", "dep": "mc", "pos": 5 if nth % 3 else 0}],
+                   ["killdev", nth, when], ["dev", 1, 3], ["dev", 1, 4]]
+            out.append({"model": model3, "ops": ops, "directed": "Bob killed inside the refresh of the develop directory map"})
     return out
 
 def _ws_of_script(script):
@@ -175,6 +198,22 @@ def run_case(case):
                 files = projgen.materialise(model, proj, clock, files)
                 uptodate = False
                 stats.inc("edits")
+                continue
+            if op[0] == "killdev":
+                r = buildsim.bob(proj, ["dev", "root"], {"sched_seed": 0, "sql_kill": {"file": ".bob-dev-dirs.sqlite3", "nth": op[1], "when": op[2]}})
+                if r.killed:
+                    stats.inc("fault_killed_inside_directory_map_refresh")
+                    log.append((n, "killdev", [e[2] for e in r.events if e[0] == "KILL"]))
+                else:
+                    stats.inc("fault_not_fired")
+                try:
+                    os.unlink(os.path.join(proj, ".bob-state.lock"))
+                except FileNotFoundError:
+                    pass
+                if not r.killed and r.rc == 0:
+                    # ran to completion (no refresh with that many statements): an ordinary build
+                    uptodate = False
+                    disturbed[True] = True
                 continue
             if op[0] in ("dev", "build"):
                 develop = op[0] == "dev"
